@@ -390,22 +390,25 @@ static void threads_exec(Ctx &ctx)
 		nt = MAXT;
 	int prov = (int)plan.C("prov");
 	ctx.nontrivial = plan.steps.size() >= 2;
-	// keyring loaded and provider selected before the threads start, freed after they are joined
-	SharedKeys K;
+	// keyring loaded and provider selected before the threads start, freed after they are joined.
+	// The threaded run comes first and on its own freshly loaded keyring, so that the first use of
+	// every shared key item happens under the interleaving (lazily initialised per-item state would
+	// otherwise be warmed up by the reference run).
+	SharedKeys K, Kseq;
 	K.init(ctx, plan.rng);
 	set_provider(prov);
-
-	// reference: the same scripts run one after another
-	RunCtx seq(plan.steps.size());
-	seq.plan = &plan;
-	seq.keys = &K;
-	for (size_t i = 0; i < plan.steps.size(); i++)
-		do_op(seq, i);
-
 	RunCtx thr(plan.steps.size());
 	thr.plan = &plan;
 	thr.keys = &K;
 	run_threaded(ctx, thr, nt);
+
+	// reference: the same scripts run one after another, on an identical but separate keyring
+	Kseq.init(ctx, plan.rng);
+	RunCtx seq(plan.steps.size());
+	seq.plan = &plan;
+	seq.keys = &Kseq;
+	for (size_t i = 0; i < plan.steps.size(); i++)
+		do_op(seq, i);
 
 	for (size_t i = 0; i < plan.steps.size(); i++) {
 		const Step &s = plan.steps[i];
@@ -435,6 +438,7 @@ static void threads_exec(Ctx &ctx)
 	}
 	set_provider(PROV_OPENSSL);
 	K.fini();
+	Kseq.fini();
 	if (g_alloc.live_blocks())
 		ctx.logf("live blocks after run: %llu", (unsigned long long)g_alloc.live_blocks());
 }
